@@ -12,7 +12,7 @@ PLAN_ENTRY = {'stages': [
     ]}
 
 CLAIM = {
-    'text': 'TLC enumerates planar lattice disks (triangle, quads with both diagonals, 3x1 strip, L-shape, 2x2 grid with 3 or all 16 diagonal choices, hexagonal fan with an interior vertex) under vertex renumberings and face rotations, each in exact 3D poses, curved disks (pyramid fans) in two poses, and non-disk inputs (closed tetrahedron, two components, annulus, three faces on one edge, vertex-only contact); it model-checks that the disk classification of the specification (edge-manifold, consistently wound, one patch, one boundary loop by the L2 boundary walk, Euler characteristic 1) agrees with the labels. Every case runs calc_edges + boundary_first_flatten in a limited child process, in two poses, and TLC judges: disks are accepted with one finite uv per vertex, every edge keeps its exact squared length and every triangle positive orientation (planar disks), the two poses give the same pairwise squared uv distances (all disks, curved included), the listed non-disk classes are rejected; for planar disks carrying their lattice (x,y) as UV map, uv_to_3d of 7 rational barycentric probes per face equals the exact posed point with the face normal and uv_with_tol maps it back to the same uv at depth 0. Seeded random jittered-connectivity grids extend sizes.',
+    'text': 'TLC enumerates planar lattice disks (triangle, quads with both diagonals, 3x1 strip, L-shape, 2x2 grid with 3 or all 16 diagonal choices, hexagonal fan with an interior vertex) under vertex renumberings and face rotations, each in exact 3D poses, curved disks (pyramid fans) in two poses, and non-disk inputs (closed tetrahedron, two components, annulus, three faces on one edge, vertex-only contact); it model-checks that the disk classification of the specification (edge-manifold, consistently wound, one patch, one boundary loop by the L2 boundary walk, Euler characteristic 1) agrees with the labels. Every case runs calc_edges + boundary_first_flatten in a limited child process, in two poses, and TLC judges: disks are accepted with one finite uv per vertex, every edge keeps its exact squared length and every triangle positive orientation (planar disks), the two poses give the same pairwise squared uv distances (all disks, curved included), the listed non-disk classes are rejected; for planar disks carrying their lattice (x,y) as UV map, uv_to_3d of 7 rational barycentric probes per face equals the exact posed point with the face normal and uv_with_tol maps it back to the same uv at depth 0. Seeded random jittered-connectivity grids extend sizes. The disks are also flattened in poses 2^20 and 2^24 lattice units from the origin (either side), and non-manifold inputs with a single boundary loop (a disk with a tetrahedral pocket on an interior edge) must be rejected; edge probes of the UV round trip are off the midpoints.',
     'design_ref': 'DESIGN.md section 6 C20',
     'note': 'Trusted: TLC; harness projection. Two defects found here (UV lookup snapping interior points to an edge; on-surface points rejected by the angle filter) were repaired by fix: commits.',
     'technique': 'TLA+ spec (L1 relations, MeshTopo disk classification with the L2 boundary walk) + TLC: bounded model checking, TLC-generated cases replayed into engeom, TLC trace validation of recorded observations',
